@@ -108,6 +108,26 @@ def run_case(j, e, s):
                 else:
                     j.skip("contains() with its absolute 50-eps threshold on non-exact data: explored only")
                     j.count("contains_defining_point_%s" % bool(r))
+            # contains() with an EXPLICIT tolerance scaled to the data (1e-9 relative): decidable at every scale, for a
+            # single point and for a 3xN array of points (defining points, a point far along the line, an off-line one)
+            nwv = math.sqrt(sum(x * x for x in a["line"]["w"])) * s
+            tol_c = 1e-9 * mag * nwv * 1e3
+            far_on = P3(c["P"]) + 1e3 * (P3(c["P"]) - P3(c["Q"]))
+            cols = [P3(c["P"]), P3(c["Q"]), far_on]
+            want = [True, True, True]
+            if not a["xon"] and a["dist2"]["n"] / a["dist2"]["d"] >= 0.01:
+                cols.append(P3(c["x"]))
+                want.append(False)
+            for nm, pt, w_ in zip(("P", "Q", "far", "x"), cols, want):
+                r = guard("Plucker.contains(tol)", lambda: L.contains(pt, tol=tol_c), ("contains-tol", nm, s))
+                if r is not None:
+                    check(j, bool(r) is w_, "Plucker.contains(tol)", feat, "answered-%s-for-%s" % (bool(r), "on-line-point" if w_ else "off-line-point"),
+                          detail, ("contains-tol", nm, s))
+            ra = guard("Plucker.contains(3xN,tol)", lambda: L.contains(np.array(cols).T, tol=tol_c), ("contains-tol", "array", s))
+            if ra is not None:
+                got = [bool(x) for x in np.asarray(ra).ravel()]
+                check(j, got == want, "Plucker.contains(3xN,tol)", feat, "array-form-differs-from-single-points", dict(detail, got=got, want=want),
+                      ("contains-tol", "array", s))
             xq = P3(c["x"])
             if not a["xon"]:
                 r = guard("Plucker.contains", lambda: L.contains(xq), ("contains", s))
@@ -190,6 +210,13 @@ def run_case(j, e, s):
                     return abs(float(np.dot(A.w, B.v) + np.dot(B.w, A.v))) / (np.linalg.norm(A.w) * np.linalg.norm(B.w) * mag)
                 check(j, orth <= TOL and meets(cp, L1) <= TOL and meets(cp, L2) <= TOL, "Plucker.commonperp", feat + ";" + kind,
                       "not-perpendicular-or-not-meeting", dict(detail, orth=orth), ("commonperp", kind, s))
+                # ... and it must BE a line: moment orthogonal to direction (the reciprocal products above mean
+                # "meets" only for coordinate vectors that satisfy the Pluecker constraint)
+                vv = np.asarray(cp.v, dtype=float)
+                pc = abs(float(np.dot(vv, w))) / (nw * max(float(np.linalg.norm(vv)), nw * mag))
+                perp = "perpendicular-directions" if abs(float(np.dot(L1.w, L2.w))) <= 1e-12 * np.linalg.norm(L1.w) * np.linalg.norm(L2.w) else "oblique-directions"
+                check(j, pc <= TOL, "Plucker.commonperp", feat + ";" + kind + ";" + perp, "result-violates-Pluecker-constraint",
+                      dict(detail, residual=pc), ("commonperp", "constraint", kind, perp, s))
         elif kind in ("general",) and cp is None:
             j.fail("%s|Plucker.commonperp|%s;%s|returned-None" % (PID, feat, kind), detail, ("commonperp", kind, s))
         # predicates: judged on exact configurations (s = 1, axis-parallel first line) or with a clear margin
@@ -203,7 +230,7 @@ def run_case(j, e, s):
                 continue
             clear = (name in ("isparallel", "|") and (exact or not expv)) or \
                     (name == "^" and (exact or (not expv and (a["parallel"] or ed >= 0.1 * s)))) or \
-                    (name in ("==", "!=") and (exact or kind in ("general", "intersecting")))
+                    (name in ("==", "!=") and (exact or kind in ("general", "intersecting", "reversed")))
             if clear:
                 check(j, bool(r) == bool(expv), sn, feat + ";" + kind, "answered-%s" % bool(r), detail, ("pred", name, kind, "judged"))
             else:
